@@ -59,7 +59,8 @@ CHECKS['C14'] = dict(level=MC, ref='4 C14',
          'consume_transpose()/copy() on operands. Each execution is validated by TLC against the same exact reference (TraceTensor, so values / charge / signature agree with the reference and '
          'hence with each other), and TraceHyper.tla compares the executions with each other event by event: outcome, signature, charge, fusion-tree shapes and legs (ObsEqAll).',
     note='bounded: 140 (quick) / 2100 (thorough) programs of 7/9 steps from tensordot, add, trace, transpose, fuse/unfuse, conj, vdot, diag, broadcast, apply_mask, add/remove_leg; '
-         'svd/qr are compared across policies in C04 (gauge-invariant observables); contract_with_unroll (paths, unrolling, slicing) is NOT covered yet',
+         'svd/qr are compared across policies in C04 (gauge-invariant observables); contract_with_unroll (paths, unrolling, slicing) is NOT covered yet. One open KNOWN FINDING (stored structurally-zero blocks of the fusing '
+         'kernels change get_legs() of later results): its canonical reproducer runs in every check; only leg differences confined to all-zero sectors match it',
     technique='TLA+ hyper-property over executions (TraceHyper) + per-execution trace validation against TensorOps')
 CHECKS['C05'] = dict(level=MC, ref='4 C05',
     text='(a) swap_gate / swap_gate(charge=): recorded programs under fermionic True/False/per-component flags validated by TLC against TensorOps!SwapGate/SwapCharge (sign fixed by the parities of the '
